@@ -196,6 +196,15 @@ def run_history(ns, rec, hist):
             rec.violation("read-raises", "the reader opened on the output taken after %d writes raised %r" % (n0, ex), {"history": hist, "bytes": out})
             return
     r = ns.EoReader(out)
+    # what generated deserializers do around every call: the (plain) reading mode is assigned explicitly, or switched on
+    # and off again, before the script starts - the reader is still a plain-mode reader at position 0
+    if len(out) % 3 == 1:
+        r.chunked_reading_mode = False
+        rec.count("readers-with-mode-assigned-off")
+    elif len(out) % 3 == 2:
+        r.chunked_reading_mode = True
+        r.chunked_reading_mode = False
+        rec.count("readers-with-mode-switched-on-and-off")
     kept = []
     for i, (name, args, want) in enumerate(expect):
         try:
